@@ -99,3 +99,55 @@ def two_deviations(tokens, stride=1):
                 seps[i] = a
                 seps[i + 1] = b
                 yield ("sep2", i, a, b), join(tokens, seps)
+
+
+def scan(text):
+    """Tokens with positions [(token, line, col, start index, end index)], skipping blanks, comments and line joining
+    (an independent reading of the lexical grammar; strings are matched before comments)."""
+    out = []
+    pos = 0
+    n = len(text)
+    line = 0
+    line_start = 0
+    while pos < n:
+        c = text[pos]
+        if c == "\n":
+            pos += 1
+            line += 1
+            line_start = pos
+            continue
+        if c in " \t\r\f":
+            pos += 1
+            continue
+        if text.startswith("/*", pos):
+            end = text.find("*/", pos + 2)
+            end = n if end < 0 else end + 2
+            for i in range(pos, end):
+                if text[i] == "\n":
+                    line += 1
+                    line_start = i + 1
+            pos = end
+            continue
+        if text.startswith("//", pos):
+            end = text.find("\n", pos)
+            pos = n if end < 0 else end
+            continue
+        if c == "\\":
+            # line joining: backslash, optional blanks, line break
+            j = pos + 1
+            while j < n and text[j] in " \t":
+                j += 1
+            if j < n and text[j] in "\r\n\f":
+                pos = j
+                continue
+        m = TOKEN_RE.match(text, pos)
+        if not m:
+            raise ValueError(f"cannot scan at {pos}: {text[pos:pos + 20]!r}")
+        tok = m.group(0)
+        out.append((tok, line, pos - line_start, pos, m.end()))
+        for i in range(pos, m.end()):
+            if text[i] == "\n":
+                line += 1
+                line_start = i + 1
+        pos = m.end()
+    return out
